@@ -162,8 +162,9 @@ def wrap_paragraph_lines(
 
     # Handle width <= 0 as "no wrapping".
     if width <= 0:
-        if replace_whitespace:
-            text = re.sub(r"\s+", " ", text)
+        # One line per paragraph: whitespace runs (including newlines) collapse just as they do
+        # when wrapping, where the word splitter discards them regardless of `replace_whitespace`.
+        text = re.sub(r"\s+", " ", text)
         if drop_whitespace:
             text = text.strip()
         return [text] if text else []
